@@ -65,6 +65,8 @@ FieldSteps(o, at, t, n) ==
           \cup (IF IsMsgKind(fd.kind) THEN {base @@ [op |-> "mut"]} ELSE {})
 
 Objs == 0..(NObj - 1)
+\* deletion sets for schema evolution, as ascending sequences (JSON arrays)
+EvoDels == {<<n>> : n \in Fields} \cup {x \in {<<a, b>> : a, b \in Fields} : x[1] < x[2]}
 \* every concatenation of 1..MaxRecs wire records
 RECURSIVE Concats(_)
 Concats(n) == IF n = 0 THEN {<<>>} ELSE {x \o y : x \in WireRecs, y \in Concats(n - 1)} \cup Concats(n - 1)
@@ -101,6 +103,9 @@ Steps ==
         THEN {[op |-> "unmarshal", o |-> a, b |-> x, merge |-> g, partial |-> TRUE, discard |-> FALSE, nolazy |-> z, limit |-> 0] :
                  a \in Objs, x \in WireInputs, g \in BOOLEAN, z \in BOOLEAN}
         ELSE {})
+  \cup (IF "evo" \in Global     \* every deletion of one or two of the touched top-level fields
+        THEN {s \in {[op |-> "evo", o |-> a, o2 |-> b, del |-> d, det |-> FALSE] : a, b \in Objs, d \in EvoDels} : s.o # s.o2}
+        ELSE {})
   \cup (IF "size" \in Global THEN {[op |-> "size", o |-> o, det |-> FALSE] : o \in Objs} ELSE {})
   \cup (IF "scribble" \in Global THEN {[op |-> "scribble", o |-> o] : o \in Objs} ELSE {})
   \cup (IF "umerge" \in Global THEN {s \in {[op |-> "umerge", o |-> a, o2 |-> b, nolazy |-> z] : a, b \in Objs, z \in BOOLEAN} : s.o # s.o2} ELSE {})
@@ -114,7 +119,7 @@ Steps ==
 Sizes(s) == IF s.op \in {"size", "rt", "cat", "marshal"} THEN {s.o + 1} \cup (IF s.op = "cat" THEN {s.o2 + 1} ELSE {})
             ELSE IF s.op = "umerge" THEN {s.o2 + 1} ELSE {}
 Mutates(s) == IF s.op \in MutOps \cup {"reset", "merge", "umerge", "scribble", "unmarshal"} THEN {s.o + 1}
-              ELSE IF s.op \in {"rt", "clone"} THEN {s.o2 + 1}
+              ELSE IF s.op \in {"rt", "clone", "evo"} THEN {s.o2 + 1}
               ELSE IF s.op = "cat" THEN {s.o3 + 1} ELSE {}
 NextCache(s) == [i \in 1..NObj |->
                    IF i \in Mutates(s) THEN (IF cache[i] = "none" THEN "none" ELSE "stale")
@@ -132,6 +137,8 @@ ExpResult(s, pre) ==
     [] s.op = "rt" -> IF Utf8OK(Type, cur) THEN "" ELSE "utf8"
     [] s.op = "cat" -> IF Utf8OK(Type, cur) /\ Utf8OK(Type, pre[s.o2 + 1]) THEN "" ELSE "utf8"
     [] s.op = "umerge" -> IF Utf8OK(Type, pre[s.o2 + 1]) THEN "" ELSE "utf8"
+    [] s.op = "evo" -> IF ~Utf8OK(Type, cur) THEN <<"utf8", TRUE, FALSE>>
+                       ELSE <<"", TRUE, OldReaderHasUnknown(Type, cur, s.del)>>
     [] s.op = "unmarshal" -> UnmarshalErr(Type, cur, s)
     [] OTHER -> 0
 \* the size of a message is the length of (any) encoding of its content: the canonical one is as long as any other
@@ -193,6 +200,13 @@ NoUnknown(t, m) ==
         ELSE IF "m" \in DOMAIN v THEN NoUnknown(fd.msg, v.m) ELSE \A k \in 1..Len(v.l) : NoUnknown(fd.msg, v.l[k].m)
 DiscardLaw == \A i \in 1..NObj : Clean(i) =>
                 LET d == Decode(Type, Encode(Type, objs[i]), EmptyMsg, 100, TRUE) IN d.ok /\ NoUnknown(Type, d.m)
+\* schema evolution commutes: for every set of deleted top-level fields, what an old reader holds (SubView) re-encodes to
+\* bytes that the full schema decodes to the original message
+EvolutionLaw == \A i \in 1..NObj : Clean(i) =>
+                  \A ds \in EvoDels \cup {<<>>} :
+                     LET del == {ds[k] : k \in 1..Len(ds)}
+                         d == Decode(Type, Encode(Type, SubView(Type, objs[i], del)), EmptyMsg, 100, FALSE)
+                     IN d.ok /\ d.m = objs[i]
 InitLaw == NObj < 2 \/ ~(Clean(1) /\ Clean(2)) \/
            (Initialized(Type, objs[1]) /\ Initialized(Type, objs[2]) => Initialized(Type, MergeMsg(Type, objs[1], objs[2])))
 =============================================================================
